@@ -161,6 +161,8 @@ pub struct EnfWorld {
     pub events: Arc<Mutex<Vec<String>>>,
     pub file_path: Option<String>,
     pub cached: bool,
+    /// a role-manager handle kept by the caller (`e.keeprm`)
+    pub kept_rm: Option<Arc<RwLock<dyn casbin::RoleManager>>>,
 }
 
 static FILE_CTR: AtomicU64 = AtomicU64::new(0);
@@ -194,13 +196,15 @@ fn out_c(r: Option<casbin::Result<bool>>) -> char {
 }
 
 fn eq_fn(a: ImmutableString, b: ImmutableString) -> Dynamic { (a == b).into() }
+fn ne_fn(a: ImmutableString, b: ImmutableString) -> Dynamic { (a != b).into() }
+fn true_fn(_a: ImmutableString, _b: ImmutableString) -> Dynamic { true.into() }
 
 impl EnfWorld {
     pub fn new() -> Self {
         EnfWorld {
             spec: Spec::default(), enf: None, conf: String::new(),
             shared: Arc::new(Shared { plan: Mutex::new(VecDeque::new()), bypass: AtomicBool::new(false) }),
-            events: Arc::new(Mutex::new(vec![])), file_path: None, cached: false,
+            events: Arc::new(Mutex::new(vec![])), file_path: None, cached: false, kept_rm: None,
         }
     }
 
@@ -244,6 +248,7 @@ impl EnfWorld {
                 self.conf = self.spec.conf();
                 let a = self.mk_adapter(rt, f[1], f[2], f[3]);
                 self.events.lock().clear();
+                self.kept_rm = None;
                 let conf = self.conf.clone();
                 let cached = self.cached;
                 let r = catch(|| rt.block_on(async {
@@ -282,6 +287,7 @@ impl EnfWorld {
         let conf = self.spec.conf();
         let shared = self.shared.clone();
         let events = self.events.clone();
+        let kept = &mut self.kept_rm;
         let e = match self.enf.as_mut() { Some(e) => e, None => return "no-enforcer".into() };
         let r = catch(|| -> String {
             let sv = |s: &str| -> Vec<String> { dec_list(s) };
@@ -310,7 +316,11 @@ impl EnfWorld {
                 }
                 "e.save" => res_u(rt.block_on(async { with_e!(e, x => x.save_policy().await) })),
                 "e.build" => res_u(with_e!(e, x => x.build_role_links())),
-                "e.setrm" => res_u(with_e!(e, x => x.set_role_manager(Arc::new(RwLock::new(DefaultRoleManager::new(10)))))),
+                "e.setrm" => {
+                    if f.len() > 1 && f[1] == "kept" {
+                        match kept.clone() { Some(h) => res_u(with_e!(e, x => x.set_role_manager(h))), None => "no-kept".into() }
+                    } else { res_u(with_e!(e, x => x.set_role_manager(Arc::new(RwLock::new(DefaultRoleManager::new(10)))))) }
+                }
                 "e.setmodel" => res_u(rt.block_on(async {
                     let m = DefaultModel::from_str(&conf).await?;
                     with_e!(e, x => x.set_model(m).await)
@@ -337,7 +347,11 @@ impl EnfWorld {
                     }
                     "ok".into()
                 }
-                "e.addfn" => { with_e!(e, x => x.add_function(&unesc(f[1]), OperatorFunction::Arg2(eq_fn))); "ok".into() }
+                "e.addfn" => {
+                    let imp: fn(ImmutableString, ImmutableString) -> Dynamic = match f.get(2).copied().unwrap_or("eq") { "ne" => ne_fn, "true" => true_fn, _ => eq_fn };
+                    with_e!(e, x => x.add_function(&unesc(f[1]), OperatorFunction::Arg2(imp))); "ok".into()
+                }
+                "e.keeprm" => { *kept = Some(with_e!(&*e, x => x.get_role_manager())); "ok".into() }
                 "e.seteft" => { with_e!(e, x => x.set_effector(Box::new(casbin::DefaultEffector))); "ok".into() }
                 "e.enf" => {
                     let vals: Vec<Dynamic> = f[1..].iter().map(|s| parse_val(s)).collect();
